@@ -276,11 +276,139 @@ func runC12(c *core.Ctx) {
 		}
 		c.Sample(func() interface{} { return map[string]interface{}{"scenario": scName, "schedules": nsched, "preemption_bound": b} })
 	}
+	nB := c12InputDefaults(c, mem, bound)
 	if c.Shard == 0 {
 		racePass(c, "c12")
 	}
-	c.R.Bound = fmt.Sprintf("%d scenarios (pairs at preemption bound %d, triples at %d); Lock-only choice points; happens-before race check on every schedule; + free-running race pass", len(scenarios), bound, map[bool]int{true: bound, false: 1}[c.Thorough()])
+	c.R.Bound = fmt.Sprintf("%d scenarios + %d input-default scenarios (pairs at preemption bound %d, triples at %d); Lock-only choice points; happens-before race check on every schedule; + free-running race pass", len(scenarios), nB, bound, map[bool]int{true: bound, false: 1}[c.Thorough()])
 	if !completed {
 		c.Cap("deadline reached")
 	}
+}
+
+// ---- Part B: input objects whose defaults are objects themselves. The default literals belong to the loaded schema and are
+// shared by every request; coercion fills defaults in place. All pairs (with repetition) of requests that leave such fields
+// out - as a literal, through a variable value, through a variable default, inside a list - and of introspection requests that
+// print the defaults, on one root. Oracle as above (response alone == response concurrently, no race on any schedule), and the
+// printed schema after the schedule equals the printed schema before it.
+
+type c12Echo struct{}
+
+func (c12Echo) Resolve(f *ggql.Field, args map[string]interface{}) (interface{}, error) {
+	if f.Name == "query" {
+		return c12Echo{}, nil
+	}
+	return string(toJSON(world.Canon(map[string]interface{}(args)))), nil
+}
+
+const c12InputSDL = "input Size { w: Int = 3 h: Int = 1 }\n" +
+	"input Box { name: String size: Size = {w: 5} sizes: [Size] = [{w: 1}, {}] inner: Box }\n" +
+	"directive @boxed(b: Box = {name: \"d\"}) on FIELD\n" +
+	"type Query { put(box: Box, boxes: [Box], plain: Size = {w: 9}): String }\n"
+
+func c12InputDefaults(c *core.Ctx, mem bool, bound int) int {
+	menu := []c12Req{
+		{Name: "literal-omits-nested", Text: `{ put(box: {name: "a"}) }`},
+		{Name: "literal-nested-omits-nested", Text: `{ put(box: {name: "a", inner: {name: "b"}}, boxes: [{name: "c"}]) }`},
+		{Name: "variable-value", Text: `query Q($b: Box) { put(box: $b) }`, Op: "Q", Vars: map[string]interface{}{"b": map[string]interface{}{"name": "v"}}},
+		{Name: "variable-default", Text: `query Q($b: Box = {name: "d"}, $l: [Box] = [{}]) { put(box: $b, boxes: $l) }`, Op: "Q"},
+		{Name: "argument-default", Text: `{ put }`},
+		{Name: "directive-default", Text: `{ put(box: {}) @boxed }`},
+		{Name: "introspect-defaults", Text: `{ __type(name: "Box") { inputFields { name defaultValue } } q: __type(name: "Query") { fields { args { name defaultValue } } } }`},
+	}
+	n := 0
+	for i := range menu {
+		for j := i; j < len(menu); j++ {
+			n++
+			if !c.OwnsIdx(int64(1000 + n)) {
+				continue
+			}
+			if c.Expired() {
+				c.Cap("deadline reached")
+				return n
+			}
+			reqs := []c12Req{menu[i], menu[j]}
+			scName := "input-defaults | " + reqs[0].Name + " || " + reqs[1].Name
+			build := func() *ggql.Root {
+				root := ggql.NewRoot(c12Echo{})
+				if err := root.ParseString(c12InputSDL); err != nil {
+					panic(core.EngineError{Msg: "C12 input-default schema refused: " + err.Error()})
+				}
+				return root
+			}
+			key := func(res map[string]interface{}) string { return string(toJSON(world.Canon(res))) }
+			alone := make([]string, 2)
+			for ti, rq := range reqs {
+				alone[ti] = key(build().ResolveString(rq.Text, rq.Op, rq.Vars))
+			}
+			printed := func(root *ggql.Root) string { // object literals in key order
+				ggql.Sort = true
+				defer func() { ggql.Sort = false }()
+				return root.SDL(false, true)
+			}
+			sdl0 := printed(build())
+			ex := &core.Explorer{Bound: bound, MaxRun: 300000, Stop: c.Expired}
+			ex.Explore(func(ch *core.Chooser) {
+				c.Eval()
+				c.R.Distinct++
+				core.Announce("C12 scenario " + scName)
+				root := build()
+				got := make([]string, 2)
+				bodies := make([]func(*sched.Sched), 2)
+				for ti := range reqs {
+					ti := ti
+					bodies[ti] = func(*sched.Sched) {
+						rq := reqs[ti]
+						got[ti] = key(root.ResolveString(rq.Text, rq.Op, deepCopyVars(rq.Vars)))
+					}
+				}
+				res := sched.Run(ch, false, bodies...)
+				detail := func(msg string, ti int) map[string]interface{} {
+					d := map[string]interface{}{"scenario": scName, "sdl": c12InputSDL, "schedule": res.Schedule, "choices": ch.Trace, "diff": msg}
+					if ti >= 0 {
+						d["request"], d["alone"], d["concurrent"] = reqs[ti].Text, alone[ti], got[ti]
+					}
+					return d
+				}
+				if mem {
+					reportRaces(c, res, map[string]string{"config": "input-defaults"}, func() map[string]interface{} { return detail("data race", -1) })
+				}
+				for _, p := range res.Panics {
+					if strings.HasPrefix(p, "ENGINE: ") {
+						panic(core.EngineError{Msg: p})
+					}
+					c.Violation("panic", map[string]string{"class": classifyPanic(p), "config": "input-defaults"}, detail(p, -1))
+				}
+				if len(res.Panics) > 0 {
+					return
+				}
+				if res.Deadlock {
+					c.Violation("deadlock", map[string]string{"config": "input-defaults"}, detail(fmt.Sprintf("threads %v blocked forever", res.Blocked), -1))
+					return
+				}
+				for ti := range reqs {
+					if got[ti] != alone[ti] {
+						c.Outcome("schedule-diff")
+						c.Violation("schedule-diff", map[string]string{"config": "input-defaults", "request": reqs[ti].Name}, detail("response differs from the response of the same request alone on a cold root", ti))
+						return
+					}
+				}
+				if sdl1 := printed(root); sdl1 != sdl0 {
+					c.Outcome("schema-changed-by-requests")
+					c.Violation("schema-changed", map[string]string{"config": "input-defaults"}, detail("requests changed the printed schema: "+firstLineDiff(sdl0, sdl1), -1))
+					return
+				}
+				c.Outcome("isolated")
+			})
+		}
+	}
+	return n
+}
+
+func deepCopyVars(v map[string]interface{}) map[string]interface{} {
+	if v == nil {
+		return nil
+	}
+	m, _ := deepCopy(v).(map[string]interface{})
+	return m
 }
